@@ -596,6 +596,18 @@ def lite_protect(sx, lite_s, plen, qlen, protect_from, pwtype):
     if lite_s:
         sx.check(sx.eq(tag.is_authenticated, True),
                  pfx + ":not-authenticated-after-protect")
+    # the round trip of the base class contract: "the password must be the
+    # same as the password provided to protect()" (the str password that
+    # only FelicaLiteS.protect accepts is given as its ASCII bytes)
+    # FelicaLiteS.protect() authenticates by itself (three mutual
+    # authentications in one run are too many cipher calls); there the
+    # second password q below covers "same first 16 bytes => accepted"
+    if not lite_s:
+        r1 = tag.authenticate(pkey)
+        if not is_bool(r1):
+            sx.check(False, pfx + ":authenticate-returns-non-bool")
+        sx.check(sx.eq(r1, True),
+                 pfx + ":protect-then-authenticate-same-password-fails")
     q = lite_password(sx, "q", qlen)
     r2 = tag.authenticate(q)
     if not is_bool(r2):
@@ -646,7 +658,10 @@ def partitions(tier):
                                 nak_as="timeout")))
     # ---- FeliCa Lite / Lite-S
     for lite_s in (0, 1):
-        for plen in ([0, 5, 16, 20] if quick else [0, 1, 15, 16, 17, 32]):
+        for plen in ([0, 5, 16, 17, 23, 24, 32] if quick else
+                     [0, 1, 15, 16, 17, 20, 23, 24, 25, 32, 40]):
+            if quick and lite_s and plen in (17, 23, 32):
+                continue    # Lite-S shares _authenticate; 0,5,16,24 there
             parts.append(dict(name="lite-auth:%d:%d" % (lite_s, plen),
                               fn="lite_authenticate",
                               params=dict(lite_s=lite_s, plen=plen)))
@@ -685,12 +700,19 @@ def partitions(tier):
     prot = [(0, "bytes", 0, 16, 1), (0, "bytes", 16, 0, 1), (0, "bytearray", 16, 16, 14),
             (0, "bytes", 18, 17, 0), (0, "bytes", 7, 16, 1),
             (1, "bytes", 16, 16, 1), (1, "bytes", 0, 16, 1), (1, "str", 16, 16, 1),
-            (1, "str", 19, 0, 14), (1, "str", 5, 16, 1)]
+            (1, "str", 19, 0, 14), (1, "str", 5, 16, 1),
+            # "the first 16 bytes are the key": longer passwords
+            (0, "bytes", 24, 16, 1), (0, "bytes", 32, 24, 1),
+            (0, "bytearray", 17, 23, 1), (0, "bytes", 23, 32, 14),
+            (1, "bytes", 24, 24, 1)]
     if not quick:
         prot += [(0, "bytes", 0, 0, 14), (0, "bytearray", 20, 16, 5),
                  (0, "bytes", 16, 16, 0), (0, "bytes", 15, 16, 1),
                  (1, "bytearray", 16, 16, 1), (1, "bytes", 0, 0, 14),
-                 (1, "str", 16, 17, 0), (1, "str", 16, 16, 5)]
+                 (1, "str", 16, 17, 0), (1, "str", 16, 16, 5),
+                 (0, "bytes", 25, 24, 1), (0, "bytes", 40, 16, 0),
+                 (1, "bytes", 32, 23, 1), (1, "bytearray", 23, 24, 14),
+                 (1, "bytes", 17, 40, 1), (1, "bytes", 0, 32, 1)]
     for lite_s, pwtype, plen, qlen, pf in prot:
         parts.append(dict(
             name="lite-protect:%d:%s:%d:%d:%d" % (lite_s, pwtype, plen, qlen, pf),
@@ -729,7 +751,7 @@ BOUNDS = {
     "authenticate(q) (lengths 0,6,7), all p,q; PACK answer replaced in transit "
     "by 0..3 arbitrary bytes.  FeliCa Lite and Lite-S over the ideal cipher: "
     "authenticate(p) for all 2^128 card keys x all passwords of length "
-    "{0,5,16,20} x all challenges x all ID blocks (Lite-S: all write counters); "
+    "{0,5,16,17,23,24,32} x all challenges x all ID blocks (Lite-S: all write counters); "
     "read_with_mac of 1..3 blocks {0},{3,4},{0,1,2},{ID} (Lite-S {5},{STATE}) "
     "with all block contents, the response untouched / data+MAC blocks "
     "replaced by arbitrary bytes / one header byte replaced / one byte short "
@@ -743,9 +765,11 @@ BOUNDS = {
     "tag model verifying MAC_A/WCNT, untouched and with the write counter "
     "read replaced in transit; tag.ndef "
     "after authentication with the MAC replaced; protect(p) then "
-    "authenticate(q) for password lengths 0,7,16,18 (Lite-S also str passwords)",
+    "authenticate(p) and authenticate(q) for password lengths "
+    "0,7,16,17,18,23,24,32 (Lite-S also str passwords); authenticate password "
+    "lengths {0,5,16,17,23,24,32} (Lite-S {0,5,16,24})",
     "thorough": "as quick with password lengths {0,1,5,6,7,16} (NTAG) / "
-    "{0,1,15,16,17,32} (FeliCa), protect_from in {0,3,4,255,300} x "
+    "{0,1,15,16,17,20,23,24,25,32,40} (FeliCa), protect_from in {0,3,4,255,300} x "
     "read_protect, PACK tampering on every product, read_with_mac block sets "
     "{13},{REG,0},{2,2} and Lite-S {0,1},{1,2,3},{ID,STATE} in all five "
     "tamper modes, write_with_mac to blocks 0,5,13,REG, more protect combinations",
